@@ -303,6 +303,9 @@ def check_compare(case, call, permute_vec, permute_sigma):
     Mt = call(case['y'], case['x'], method, sig, 'array', (1, 0))
     if isinstance(Mt, dict):
         return _fail(case, 'symmetry', 'compare(y, x) raises', Mt, 'a matrix')
+    if len(Mt) != len(Y) or any(len(r) != len(X) for r in Mt):
+        return _fail(case, 'shape', 'compare(y, x) is not (n_rdm2 x n_rdm1)', [len(Mt), len(Mt[0]) if Mt else 0],
+                     [len(Y), len(X)])
     for i in range(len(X)):
         for j in range(len(Y)):
             if definition(X[i], Y[j], kern.get(('x', i)), kern.get(('y', j))) is None:
@@ -315,6 +318,9 @@ def check_compare(case, call, permute_vec, permute_sigma):
     S = call(case['x'], case['x'], method, sig, 'array', (0, 0))
     if isinstance(S, dict):
         return _fail(case, 'self', 'compare(x, x) raises', S, 'a matrix')
+    if len(S) != len(X) or any(len(r) != len(X) for r in S):
+        return _fail(case, 'shape', 'compare(x, x) is not (n_rdm1 x n_rdm1)', [len(S), len(S[0]) if S else 0],
+                     [len(X), len(X)])
     for i, x in enumerate(X):
         want = definition(x, x, kern.get(('x', i)), kern.get(('x', i)))
         if want is None:
@@ -335,6 +341,9 @@ def check_compare(case, call, permute_vec, permute_sigma):
         Mp = call(xp, yp, method, permute_sigma(sig, perm), 'array')
         if isinstance(Mp, dict):
             return _fail(case, 'perm', 'compare raises after permuting the conditions', Mp, 'a matrix')
+        if len(Mp) != len(X) or any(len(r) != len(Y) for r in Mp):
+            return _fail(case, 'shape', 'result after permuting the conditions is not (n_rdm1 x n_rdm2)',
+                         [len(Mp), len(Mp[0]) if Mp else 0], [len(X), len(Y)])
         for i in range(len(X)):
             for j in range(len(Y)):
                 if definition(X[i], Y[j], kern.get(('x', i)), kern.get(('y', j))) is None:
@@ -348,6 +357,9 @@ def check_compare(case, call, permute_vec, permute_sigma):
         Mr = call(case['x'], case['y'], method, sig, form)
         if isinstance(Mr, dict):
             return _fail(case, 'forms', f'compare raises for input form {form}', Mr, 'a matrix')
+        if len(Mr) != len(X) or any(len(r) != len(Y) for r in Mr):
+            return _fail(case, 'forms', f'result for input form {form} is not (n_rdm1 x n_rdm2)',
+                         [len(Mr), len(Mr[0]) if Mr else 0], [len(X), len(Y)])
         for i in range(len(X)):
             for j in range(len(Y)):
                 a, b = M[i][j], Mr[i][j]
@@ -355,6 +367,20 @@ def check_compare(case, call, permute_vec, permute_sigma):
                 if (a is None) != (b is None) or (a is not None and abs(a - b) > 1e-12 + ftol * max(1.0, abs(a))):
                     return _fail(case, 'forms', f'{method}: arrays and RDMs objects ({form}) give different answers',
                                  b, a)
+    return None
+
+
+def check_pair_only(case, call):
+    """tau-a of two plain vectors against the definition (used for the `passes` kind, whose
+    vectors need not have a triangular length)"""
+    x, y = [fr(v) for v in case['x'][0]], [fr(v) for v in case['y'][0]]
+    got = call(case['x'], case['y'])
+    if isinstance(got, dict):
+        return _fail(case, 'definition', 'tau-a raises on valid vectors', got, 'a value')
+    want = d_tau_a(x, y)
+    if got[0][0] is None or abs(got[0][0] - float(want)) > 1e-9:
+        return _fail(case, 'definition', 'tau-a differs from (concordant - discordant) / C(n,2)',
+                     got[0][0], float(want))
     return None
 
 
